@@ -76,23 +76,25 @@ def afterObs (ws : List String) : String :=
       else s!"reject expected closed={expClosed} rdead={expDead} listed=0 done=1 mem=1 gor=1 conn-ok={b conn}"
   | _, _, _, _, _, _, _ => "bad-op"
 
-/-- a connection handed to NewPeer: closed, unless NewPeer returned nil and the loop exited
-    with the TorAddPeer still queued (the known finding, `C17_full_refuted`) -/
+def connFacts : ConnFacts :=
+  connFactsOf Gen.addPeerRunsPeer Gen.addPeerExitsBeforeRun Gen.newPeerReturns Gen.peerRunClosesConnFirst
+
+/-- a connection handed to NewPeer: what the connection model's maximal runs allow for this
+    hand-over and this stop point (closed — or stranded in the dead loop's queue) -/
 def connObs (ws : List String) : String :=
-  match kv ws "stop", kv ws "got", kv ws "closed" with
-  | some stop, some got, some closed =>
-    match termsOf "NewPeer" stop with
-    | none => "bad-op"
-    | some (_, ts) =>
-      -- "a+b": two hand-overs with different results; each must be possible
-      let gots := got.splitOn "+"
-      let mine := ts.filter (fun t => gots.contains (resStr t.res))
-      let possible := gots.all (fun g => ts.any (fun t => resStr t.res == g))
-      let ok :=
-        if closed == "1" then mine.any (fun t => !Cmd.leaked t.cmd)
-        else mine.any (fun t => Cmd.leaked t.cmd)
-      if possible && ok then "accept" else "reject closed expected"
-  | _, _, _ => "bad-op"
+  match (kv ws "branch").bind Branch.ofString, (kv ws "stop").bind Stop.ofString, kv ws "got",
+        kv ws "closed" with
+  | some br, some st, some got, some closed =>
+    let ts := connOutcomes connFacts br st
+    -- "a+b": two hand-overs with different results; each must be possible
+    let gots := got.splitOn "+"
+    let mine := ts.filter (fun t => gots.contains (resStr t.res))
+    let possible := gots.all (fun g => ts.any (fun t => resStr t.res == g))
+    let ok :=
+      if closed == "1" then mine.any (fun t => t.conn == .closed)
+      else mine.any (fun t => t.conn != .closed)
+    if possible && ok then "accept" else "reject closed expected"
+  | _, _, _, _ => "bad-op"
 
 def step (_ : Unit) (ws : List String) : Unit × String :=
   match ws with
